@@ -932,6 +932,23 @@ class MultiUserChannelMatrix:  # pylint: disable=R0902
                     *= small_matrix[rx, tx]
         return big_matrix
 
+    def _update_pathloss_big_matrix(self) -> None:
+        """
+        Recompute `_pathloss_big_matrix` from the current path loss matrix
+        and the current number of antennas.
+
+        This must be called whenever the number of antennas changes so
+        that `big_H` and `H` keep using the same path loss.
+        """
+        if self._pathloss_matrix is None:
+            self._pathloss_big_matrix = None
+        else:
+            Kr, Kt = self._pathloss_matrix.shape
+            self._pathloss_big_matrix \
+                = MultiUserChannelMatrix._from_small_matrix_to_big_matrix(
+                    self._pathloss_matrix, self._Nr, self._Nt, Kr, Kt)
+            self._pathloss_big_matrix.setflags(write=False)
+
     def init_from_channel_matrix(self, channel_matrix: np.ndarray,
                                  Nr: IntOrIntArrayUnion,
                                  Nt: IntOrIntArrayUnion, K: int) -> None:
@@ -1000,6 +1017,9 @@ class MultiUserChannelMatrix:  # pylint: disable=R0902
         self._big_H_no_pathloss.setflags(write=False)
         self._H_no_pathloss.setflags(write=False)
 
+        # The number of antennas may have changed
+        self._update_pathloss_big_matrix()
+
     def randomize(self, Nr: IntOrIntArrayUnion, Nt: IntOrIntArrayUnion,
                   K: int) -> None:
         """
@@ -1042,6 +1062,9 @@ class MultiUserChannelMatrix:  # pylint: disable=R0902
         # modification of individual elements in both of them.
         self._big_H_no_pathloss.setflags(write=False)
         self._H_no_pathloss.setflags(write=False)
+
+        # The number of antennas may have changed
+        self._update_pathloss_big_matrix()
 
     def get_Hkl(self, k: int, l: int) -> np.ndarray:
         """
